@@ -126,15 +126,22 @@ type Exec struct {
 	loopFresh map[string]bool
 	loopPreAlloc Term
 	compType  map[string]types.Type
+	localNames map[string]Val
+	localAddrs map[string]Val // address-taken locals: name -> address
+	refValued map[string]string // map-value components holding references -> key sort
+	pendingAlloc Term
+	refValuedTag map[string]int
+	accumOf   map[string]Term // accumulator phi symbol -> allocation counter at the start of its outermost loop
 	funSigs   map[string]string
 	idxSeen   map[string]bool
 	boxOf     map[string]Term // defined Any symbol -> the reference it boxes
+	boxType   map[string]types.Type
 }
 
 func newExec(w *World) *Exec {
 	e := &Exec{W: w, reg: newTypeReg(), declared: map[string]bool{}, compSort: map[string]string{}, compInit: map[string]Term{},
 		notes: map[string]bool{}, assumes: map[string]bool{}, abstracted: map[string]bool{}, oblNames: map[string]int{},
-		boundCalls: map[string]bool{}, boxOf: map[string]Term{}, recursive: map[*ssa.Function]bool{}, symAt: map[string]int{}, modsMemo: map[*ssa.Function][]string{}, modsBusy: map[*ssa.Function]bool{}, trackCalled: map[string]bool{}, siteSeq: map[string]int{}}
+		boundCalls: map[string]bool{}, accumOf: map[string]Term{}, localNames: map[string]Val{}, localAddrs: map[string]Val{}, boxOf: map[string]Term{}, boxType: map[string]types.Type{}, recursive: map[*ssa.Function]bool{}, symAt: map[string]int{}, modsMemo: map[*ssa.Function][]string{}, modsBusy: map[*ssa.Function]bool{}, trackCalled: map[string]bool{}, siteSeq: map[string]int{}}
 	return e
 }
 
@@ -371,7 +378,12 @@ func (e *Exec) comp(s *State, name, sort string) Term {
 	// declared at the very beginning conceptually; put decl item now (declaration order is irrelevant for consts)
 	e.items = append(e.items, Item{Kind: ItemDecl, Sym: init, Text: fmt.Sprintf("(declare-const %s %s)", init, sort)})
 	e.compInit[name] = init
+	saved := e.pendingAlloc
+	if a, ok := e.compInit[allocComp]; ok {
+		e.pendingAlloc = a
+	}
 	e.initCompFacts(name, sort, init)
+	e.pendingAlloc = saved
 	return init
 }
 
@@ -386,6 +398,11 @@ func (e *Exec) initCompFacts(name, sort string, sym Term) {
 	}
 	if strings.HasPrefix(name, "ML_") {
 		e.assumeKeyed(sym, Eq(Select(sym, "0"), "0"), "nil map has length 0")
+	}
+	if ks, ok := e.refValued[name]; ok && e.pendingAlloc != "" {
+		// every reference stored in a map is an allocated one
+		e.declFun("rtype", []string{"Int"}, "Int")
+		e.assumeKeyed(sym, fmt.Sprintf("(forall ((rq Int) (kq %s)) (! (and (<= (select (select %s rq) kq) %s) (or (= (select (select %s rq) kq) 0) (= (rtype (select (select %s rq) kq)) %d))) :pattern ((select (select %s rq) kq))))", ks, sym, e.pendingAlloc, sym, sym, e.refValuedTag[name], sym), "references stored in maps are allocated and typed")
 	}
 }
 
@@ -552,14 +569,16 @@ func (e *Exec) freshDuring(ref Term, limit int) bool {
 
 // applyHavoc havocs the modified components/cells in s.
 func (e *Exec) applyHavoc(s *State, ms modSet) {
+	if _, ok := ms[allocComp]; ok {
+		old := e.allocCtr(s)
+		e.havocComp(s, allocComp)
+		e.assume(app(">=", s.comps[allocComp], old), "")
+	}
+	savedPA := e.pendingAlloc
+	e.pendingAlloc = e.allocCtr(s)
+	defer func() { e.pendingAlloc = savedPA }()
 	for _, m := range sortedKeys(ms) {
-		if strings.HasPrefix(m, "VISITED_") && false {
-			continue
-		}
 		if m == allocComp {
-			old := e.allocCtr(s)
-			e.havocComp(s, m)
-			e.assume(app(">=", s.comps[m], old), "")
 			continue
 		}
 		refs := ms[m]
@@ -664,6 +683,18 @@ func (e *Exec) mapNames(m *types.Map) (dn, ds, vn, vs string) {
 	k := e.reg.sortOf(m.Key())
 	v := e.reg.sortOf(m.Elem())
 	suffix := e.reg.typeId(m.Key()) + "_" + e.reg.typeId(m.Elem())
+	if isRefLike(m.Elem()) {
+		if _, isSig := unalias(m.Elem()).Underlying().(*types.Signature); !isSig {
+			if e.refValued == nil {
+				e.refValued = map[string]string{}
+			}
+			e.refValued["MV_"+suffix] = k
+			if e.refValuedTag == nil {
+				e.refValuedTag = map[string]int{}
+			}
+			e.refValuedTag["MV_"+suffix] = e.reg.tagOf(unalias(m.Elem()))
+		}
+	}
 	return "MD_" + suffix, "(Array Int (Array " + k + " Bool))", "MV_" + suffix, "(Array Int (Array " + k + " " + v + "))"
 }
 func (e *Exec) mapLenName(m *types.Map) (string, string) {
@@ -721,8 +752,26 @@ func (e *Exec) load(s *State, a *Addr) Val {
 	return v
 }
 
+// refTyped: references to cells of different Go types are different (unless nil).
+func (e *Exec) refTyped(v Val) {
+	if e.inQuant > 0 || v.Term == "" || v.Addr != nil {
+		return
+	}
+	switch unalias(v.T).Underlying().(type) {
+	case *types.Pointer, *types.Map, *types.Chan:
+	default:
+		return
+	}
+	if !isAtom(v.Term) && len(v.Term) > 200 {
+		return
+	}
+	e.declFun("rtype", []string{"Int"}, "Int")
+	e.assume(Or(Eq(v.Term, "0"), Eq(app("rtype", v.Term), IntLit(int64(e.reg.tagOf(unalias(v.T)))))), "")
+}
+
 // refBound: any reference read from the heap is an allocated one.
 func (e *Exec) refBound(s *State, v Val) {
+	e.refTyped(v)
 	if _, ok := s.comps[allocComp]; !ok {
 		if _, ok2 := e.compInit[allocComp]; !ok2 {
 			return
@@ -831,11 +880,12 @@ type loopInfo struct {
 	headerState *State
 	preState *State
 	accum   []*ssa.Phi
+	accumPre map[*ssa.Phi]Term
 	preAlloc Term
 }
 
-func (e *Exec) accumInv(s Term, li *loopInfo) Term {
-	return Or(app(">", app("s_base", s), li.preAlloc), And(Eq(app("s_cap", s), "0"), Eq(app("s_base", s), "0")))
+func (e *Exec) accumInvAt(s Term, pre Term) Term {
+	return Or(app(">", app("s_base", s), pre), And(Eq(app("s_cap", s), "0"), Eq(app("s_base", s), "0")))
 }
 
 func (e *Exec) val(f *Frame, v ssa.Value) Val {
@@ -1328,7 +1378,7 @@ func (e *Exec) enterLoop(f *Frame, li *loopInfo, h *ssa.BasicBlock, st *State, r
 	if os.Getenv("GOVC_DEBUG") != "" && e.discovery == 0 {
 		fmt.Fprintf(os.Stderr, "DEBUG loop %d of %s mods:\n", li.ordinal, f.fn.Name())
 		for _, m := range sortedKeys(mods) {
-			fmt.Fprintf(os.Stderr, "   %s %v\n", m, sortedKeys(mods[m]))
+			fmt.Fprintf(os.Stderr, "   %s %q\n", m, sortedKeys(mods[m]))
 		}
 	}
 	// 4. inv-init obligations
@@ -1340,7 +1390,7 @@ func (e *Exec) enterLoop(f *Frame, li *loopInfo, h *ssa.BasicBlock, st *State, r
 	hs := st.clone()
 	e.loopPreAlloc = li.preAlloc
 	e.applyHavoc(hs, mods)
-	if e.rootCtr != nil && e.rootCtr.Writes != nil {
+	if e.rootCtr != nil && e.rootCtr.Writes != nil && !e.rootCtr.Writes.Assumed {
 		// the function's writes clause frames the loop: cells allocated before the call and not listed are unchanged
 		for _, m := range sortedKeys(mods) {
 			so := e.compSort[m]
@@ -1388,7 +1438,21 @@ func (e *Exec) autoPhiFacts(f *Frame, li *loopInfo, phi *ssa.Phi, nv, entry Val,
 		if entry.Term == zeroOfSort("Slice") {
 			// accumulator starting from nil: its backing array (if any) was allocated inside the loop
 			li.accum = append(li.accum, phi)
-			e.assume(e.accumInv(nv.Term, li), "accumulator slice starts nil: backing array allocated in the loop")
+			if li.accumPre == nil {
+				li.accumPre = map[*ssa.Phi]Term{}
+			}
+			li.accumPre[phi] = li.preAlloc
+			e.accumOf[nv.Term] = li.preAlloc
+			e.assume(e.accumInvAt(nv.Term, li.preAlloc), "accumulator slice starts nil: backing array allocated in the loop")
+		} else if pre, ok := e.accumOf[entry.Term]; ok {
+			// nested loop continuing an enclosing loop's accumulator
+			li.accum = append(li.accum, phi)
+			if li.accumPre == nil {
+				li.accumPre = map[*ssa.Phi]Term{}
+			}
+			li.accumPre[phi] = pre
+			e.accumOf[nv.Term] = pre
+			e.assume(e.accumInvAt(nv.Term, pre), "accumulator slice of an enclosing loop")
 		}
 		e.assume(And(app(">=", app("s_len", nv.Term), "0"), app(">=", app("s_off", nv.Term), "0"), app(">=", app("s_cap", nv.Term), app("s_len", nv.Term))), "")
 		e.assume(app("<=", app("s_base", nv.Term), e.allocCtr(hs)), "")
